@@ -23,6 +23,8 @@ G_INNERS = {"bare", "app", "part"}
 G_SITES = {"varc", "varm", "param", "ret", "pret", "lam", "lamret", "global", "gparam", "gret", "gpret"}
 G_CTXS = {"plain", "clo", "loop", "arm", "ifarm", "block", "method"}
 G_PLACES = {"same12", "same21", "u1fn_before", "u1fn_after", "u2fn_before", "u2fn_after"}
+# records per validation run (bounds TLC's memory in the thorough tier; the chunks are independent)
+CHUNK = 3000
 
 
 def family(case):
@@ -105,10 +107,9 @@ def run(ctx):
     cf = os.path.join(wd, "cases.ndjson")
     tf = os.path.join(wd, "trace.ndjson")
     vlib.write_ndjson(cf, cases)
-    vlib.harness("c08", ["record", cf, tf, maxexh], timeout=tmo)
+    vlib.harness("c08", ["record", cf, tf, maxexh], timeout=2 * tmo)
     recs = vlib.read_ndjson(tf)
-    # validation in chunks (bounds TLC's memory in the thorough tier; the chunks are independent)
-    chunk = 3000
+    chunk = CHUNK
     vstates = vtrans = 0
     for lo in range(0, len(recs), chunk):
         part = recs[lo:lo + chunk]
